@@ -346,15 +346,16 @@ MProd(x) ==
 \* copies and round trips: the expected outcome is the identity on the projected state.
 \* origin = how the harness obtains the object: "cores" (constructor from cores), "tview" (transpose of the
 \* transpose: permuted, non-contiguous core views), "slice2" (x[::2, :, ...]: strided core views), "svd"
-\* (TT-SVD of the dense array: rank list holds numpy integers; values only up to roundoff)
+\* (TT-SVD of the dense array: rank list holds numpy integers; values only up to roundoff), "neg" (-x: the zero
+\* entries of the fill become negative zeros, which a bit-exact round trip has to preserve)
 Copies(op, x) ==
     /\ op \in OPS
-    /\ \E origin \in {"cores", "tview", "slice2", "svd"} :
+    /\ \E origin \in {"cores", "tview", "slice2", "svd", "neg"} :
         /\ (origin = "tview" => x.k = "ttm")
         /\ (origin = "slice2" => x.k = "tt" /\ x.I[1] >= 2)
         /\ LET X == Mk(x)  DX == Full(X)
                e == <<[t |-> "s", lo |-> NONE, hi |-> NONE, st |-> 2]>>
-               D == IF origin = "slice2" THEN DIndex(DX, e) ELSE DX
+               D == IF origin = "slice2" THEN DIndex(DX, e) ELSE IF origin = "neg" THEN DNeg(DX) ELSE DX
                N == IF x.k = "tt" THEN D.sh ELSE x.J IN
            /\ case' = [op |-> op, x |-> x, origin |-> origin]
            /\ res' = IF op = "numpy" THEN DenseRes(D, "must") @@ [tol |-> IF origin = "svd" THEN "roundoff" ELSE "exact"]
